@@ -67,7 +67,7 @@ def run_scenario(chk, sc, cfgseed, species_src, flavour="sched", workers=None):
     species = SPECIES_ORDERS[cfgseed % len(SPECIES_ORDERS)][:ns]
     mesh = gamma_chk.nested_mesh([[c - 1 for c in L["cells"]] for L in sc["levels"]])
     layouts = [{"state": L["state"], "gradp": L["gradp"], "ir": L["ir"]} for L in sc["levels"]]
-    d = chk.tmp()
+    d = chk.tmp_reuse()
     os.makedirs(d)
     cdir, out = os.path.join(d, "chk00005"), os.path.join(d, "converted")
     tval = rng.choice([1.6457727058794072e-11, 0.37, -2.5e-3, 123456.789])
